@@ -50,27 +50,32 @@ def readUniversalChar (p : List Byte) : Nat → BitVec 32 → BitVec 32
     | [] => 0#32
     | b :: rest => if !isXDigit b then 0#32 else readUniversalChar rest len ((c <<< 4) ||| fromHex b)
 
-/-- `convert_universal_chars`.  fuel: one unit per loop iteration (`p.length + 1` suffices). -/
-def convertUniversalCharsAux : Nat → List Byte → List Byte
-  | 0, p => p
-  | _ + 1, [] => []
-  | fuel + 1, a :: rest =>
+/-- one iteration of the `while (*p)` loop of `convert_universal_chars` on a non-empty text:
+    (bytes written through `q`, text remaining at `p`) -/
+def ucnStep : List Byte → List Byte × List Byte
+  | [] => ([], [])
+  | a :: rest =>
     if a = BSL then
       match rest with
       | b :: rest' =>
-        if b = 117#8 then                                   -- \u
+        if b = 117#8 then                                   -- startswith(p, "\\u")
           let c := readUniversalChar rest' 4 0
-          if c ≠ 0#32 then encodeUtf8 c ++ convertUniversalCharsAux fuel (rest'.drop 4)
-          else a :: convertUniversalCharsAux fuel rest
-        else if b = 85#8 then                               -- \U
+          if c ≠ 0#32 then (encodeUtf8 c, rest'.drop 4) else ([a], rest)
+        else if b = 85#8 then                               -- startswith(p, "\\U")
           let c := readUniversalChar rest' 8 0
-          if c ≠ 0#32 then encodeUtf8 c ++ convertUniversalCharsAux fuel (rest'.drop 8)
-          else a :: convertUniversalCharsAux fuel rest
-        else a :: b :: convertUniversalCharsAux fuel rest'   -- `*q++ = *p++; *q++ = *p++;`
-      | [] => [a]                                            -- (the C code would copy the terminator too; texts end in "\n")
-    else a :: convertUniversalCharsAux fuel rest
+          if c ≠ 0#32 then (encodeUtf8 c, rest'.drop 8) else ([a], rest)
+        else ([a, b], rest')                                -- `*q++ = *p++; *q++ = *p++;`
+      | [] => ([a], [])                                     -- (the C code would copy the terminator too; texts end in "\n")
+    else ([a], rest)
 
-def convertUniversalChars (p : List Byte) : List Byte := convertUniversalCharsAux (p.length + 1) p
+/-- `convert_universal_chars`.  fuel: one unit per loop iteration; every iteration consumes at least one byte,
+    so `p.length` suffices (`convertUniversalCharsAux_fuel` in Lemmas/TextLemmas.lean). -/
+def convertUniversalCharsAux : Nat → List Byte → List Byte
+  | 0, _ => []
+  | _ + 1, [] => []
+  | fuel + 1, a :: rest => (ucnStep (a :: rest)).1 ++ convertUniversalCharsAux fuel (ucnStep (a :: rest)).2
+
+def convertUniversalChars (p : List Byte) : List Byte := convertUniversalCharsAux p.length p
 
 /-- `read_file` guarantees a final newline -/
 def ensureFinalNewline (p : List Byte) : List Byte :=
